@@ -144,8 +144,25 @@ static void run_numbering() {
   report("ids.documented-numbering", b == 0 && a0 == 1 && c == 2 && d == wantD && e == wantE, "C03",
          "NB=" + std::to_string(b) + " NA=" + std::to_string(a0) + " NC=" + std::to_string(c) + " ND=" + std::to_string(d) + " NE=" + std::to_string(e) + " (documented: 0 1 2 " + std::to_string(wantD) + " " + std::to_string(wantE) + ")");
 }
+#if !IS_MP11
+// get_state_by_id (back / back11): for every id of the machine the state object numbered id - the very object get_state<> returns - and a
+// null pointer for an id no state has (C03 introspection agreement)
+static void run_state_by_id() {
+  Num m; m.start();
+  const void* by_type[5] = { &m.get_state<Num_::NB&>(), &m.get_state<Num_::NA&>(), &m.get_state<Num_::NC&>(), nullptr, nullptr };
+  by_type[4] = &m.get_state<Num_::ND&>(); by_type[3] = &m.get_state<Num_::NE&>();        // documented numbering of back: NB NA NC NE ND
+  bool ok = true; std::string t;
+  for (int id = 0; id < 5; ++id) { const void* p = m.get_state_by_id(id); ok = ok && p == by_type[id]; t += (p == by_type[id]) ? "=" : "X"; }
+  const bool null_beyond = m.get_state_by_id(5) == nullptr && m.get_state_by_id(99) == nullptr;
+  const bool active = m.get_state_by_id(m.current_state()[0]) == &m.get_state<Num_::NA&>();
+  report("ids.get_state_by_id-returns-the-state-object-numbered-id", ok && null_beyond && active, "C03", "per-id=" + t + " null-beyond=" + std::to_string(null_beyond) + " active=" + std::to_string(active));
+}
+#endif
 int main(int argc, char** argv) {
   if (argc > 1) g_only = argv[1];
+#if !IS_MP11
+  run_state_by_id();
+#endif
   run<msm::active_state_switch_after_entry>(); run<msm::active_state_switch_before_transition>();
   run<msm::active_state_switch_after_exit>(); run<msm::active_state_switch_after_transition_action>();
   run_regions();
